@@ -5,6 +5,7 @@ props = [json.loads(l) for l in open(os.path.join(V, 'properties.jsonl'))]
 ids = [p['id'] for p in props]
 
 CLAIMS = {}
+CATEGORY = {}   # property id -> category other than 'proof' (set in claims.py)
 def claim(pid, text, note, technique, design_ref):
   CLAIMS[pid] = dict(text=text, note=note, technique=technique, design_ref=design_ref)
 
@@ -22,7 +23,7 @@ for pid in ids:
       'evidence_file': 'evidence/%s.json' % pid,
       'replay_cmd_template': './check %s --replay {path}' % pid,
       'engine': 'lean4-model',
-      'level_claimed': {'category': 'proof', 'text': c['text'], 'design_ref': c['design_ref']},
+      'level_claimed': {'category': CATEGORY.get(pid, 'proof'), 'text': c['text'], 'design_ref': c['design_ref']},
       'level_note': c['note'],
       'technique': c['technique'],
   })
